@@ -22,6 +22,8 @@ def gen_cases(ctx, n_streams):
         [bytes.fromhex('000700'), bytes.fromhex('0000042A01CA'), bytes.fromhex('FE000800000001'), bytes.fromhex('09'), bytes.fromhex('0009')],
         [fc.mbap(1, 1, b'\x05') + big[:252], big[252:] + fc.mbap(3, 3, b'\x01\x02')],
         [fc.mbap(1, 1, b'') + big[:253], big[253:]],
+        [fc.mbap(1, 1, b'') + big[:253], big[253:254], big[254:]],
+        [fc.mbap(1, 1, b'') + big[:100], big[100:253], big[253:] + fc.mbap(5, 5, b'\x09')],
         [b'\x00' * 260, b'\x00' * 7],
         [fc.mbap(7, 1, b'\x03', proto=5)],
         [fc.mbap(7, 1, b'\x03', length=0)],
@@ -210,6 +212,10 @@ def run(ctx):
     if client_cases:
         bad, client_impl = run_client(ctx, client_cases)
         ctx.oblige('correspondence:client-reader-fresh-on-every-connection', bad == 0, f'{bad} mismatches over {len(client_cases)} multi-connection histories')
+        if not ctx.replay:
+            loud = ctx.harness('client_conns', [client_line(c) for c in client_cases[:100]], args=['--decode', 'max'], shards=4)
+            diff = [k for k, (a, b) in enumerate(zip(loud, client_impl[:100])) if a != b]
+            ctx.oblige('decode-level-does-not-change-client-results', not diff, f'{len(diff)} of {len(loud)} differ' + (f'; first: {client_line(client_cases[diff[0]])[:160]}' if diff else ''))
     # server role: the production SessionTask over the same streams; the session must end as the Spec says and
     # everything it does (handler calls, replies) must be the same for every chunking of the same stream
     n_srv = 0
@@ -235,6 +241,10 @@ def run(ctx):
                                   f'server session on `{fc.to_line(c)[:160]}`: {line[:160]}{other}; the stream prescribes {spec[:120]}',
                                   {'cases': [{'server': fc.case_to_json(c)}] + ([{'server': fc.case_to_json(first[0])}] if other else []), 'impl': line, 'spec': spec})
         n_srv = len(srv_cases)
+        if not ctx.replay:
+            loud = ctx.harness('server_session', [' '.join(['tcp', c[2]] + [(x.hex() if x else '-') for x in c[3]]) for c in srv_cases[:150]], args=['--decode', 'max'], shards=4)
+            diff = [k for k, (a, b) in enumerate(zip(loud, srv[:150])) if a != b]
+            ctx.oblige('decode-level-does-not-change-server-session', not diff, f'{len(diff)} of {len(loud)} differ' + (f'; first: {fc.to_line(srv_cases[diff[0]])[:160]}' if diff else ''))
         ctx.oblige('correspondence:tcp-server-session-chunking-independent', bad_srv == 0,
                    f'{bad_srv} mismatches over {n_srv} sessions / {len(by_stream)} distinct streams')
     # measured input classes
@@ -251,6 +261,8 @@ def run(ctx):
         bump('frames:' + ('0' if nfr == 0 else '1' if nfr == 1 else '2-4' if nfr <= 4 else '5+'))
         if stats.get('compactions', 0) > 0:
             bump('buffer:compacted')
+        if 0 < stats.get('min_compaction', 0) <= 14:
+            bump('buffer:full_with_14_consumed')          # the fewest the MBAP parser can have consumed when it is stuck at end == capacity: a 7-byte frame + a header
         if stats.get('resets', 0) > 0:
             bump('buffer:reset_when_empty')
         if sum(len(x) for x in c[3]) > fc.CAP:
@@ -263,7 +275,7 @@ def run(ctx):
             bump('client:ok_after_dead_connection')
     if not ctx.replay:
         need = ['ending:UnknownProtocolId', 'ending:FrameLengthTooBig', 'ending:MbapLengthZero', 'ending:Io(UnexpectedEof)', 'ending:Pending',
-                'buffer:compacted', 'buffer:reset_when_empty', 'schedule:byte_per_byte', 'schedule:buffer_edge', 'stream:longer_than_buffer',
+                'buffer:compacted', 'buffer:full_with_14_consumed', 'buffer:reset_when_empty', 'schedule:byte_per_byte', 'schedule:buffer_edge', 'stream:longer_than_buffer',
                 'client:ok_after_dead_connection', 'mode:resume']
         missing = [k for k in need if classes.get(k, 0) < 3]
         ctx.oblige('generator-reaches-expected-classes', not missing, 'missing: ' + ','.join(missing))
